@@ -193,6 +193,21 @@ pub fn par_run<C: Sync>(ctx: &Ctx, cases: &[C], id: &(dyn Fn(&C) -> String + Syn
                         stop.fetch_add(1, Ordering::Relaxed);
                     }
                 }
+                // memory: written-out samples are only needed for the first few held cases
+                let mut out = out;
+                let strip = match &out.verdict {
+                    Verdict::Held => true,
+                    // cases failing only with listed findings are kept as counts, not as witnesses
+                    Verdict::Violated(vs) => {
+                        let case_text = out.sample.to_string();
+                        known.iter().all(|k| k.case_contains.is_empty()) && vs.iter().all(|v| known.iter().any(|k| k.matches(&ctx.prop, v, &case_text)))
+                    }
+                    Verdict::Inconclusive(_) => true,
+                };
+                if i >= 48 && strip {
+                    out.sample = Value::Null;
+                    out.witness = vec![];
+                }
                 results.lock().unwrap().push((i, CaseResult { id: cid, out }));
             });
         }
